@@ -3,10 +3,10 @@
 using namespace rx;
 
 // entry: 0 req_read8 1 req_read16 2 req_write8 3 req_write16 4 ack 5..15 error response with code entry-4 (1..11) 16 meta(1) 17 meta(2)
-struct Case { int entry; bool serial, mem16, req_write, req_w16; uint16_t seq; uint32_t addr, n, value; Bytes payload; bool chunk; };
+struct Case { int entry; bool serial, mem16, req_write, req_w16; uint16_t seq; uint32_t addr, n, value; Bytes payload; bool chunk; int snkmode = 0; };   // snkmode: how the sink takes the emitted octets: 0 whole calls, 1 one octet per call, 2 short writes mixed with EINTR
 static Case g_cur;
 static std::string ser_case(const Case &c) {
-    return vp::fmt("emit %d %d %d %d %d %u %u %u %u %d %s\n", c.entry, (int)c.serial, (int)c.mem16, (int)c.req_write, (int)c.req_w16, c.seq, c.addr, c.n, c.value, (int)c.chunk, c.payload.empty() ? "-" : vp::hex(c.payload).c_str());
+    return vp::fmt("emit %d %d %d %d %d %u %u %u %u %d %s %d\n", c.entry, (int)c.serial, (int)c.mem16, (int)c.req_write, (int)c.req_w16, c.seq, c.addr, c.n, c.value, (int)c.chunk, c.payload.empty() ? "-" : vp::hex(c.payload).c_str(), c.snkmode);
 }
 static const char *entry_name(int e) {
     static const char *n[] = {"req_read8", "req_read16", "req_write8", "req_write16", "resp_ack", "resp_ewordsize", "resp_epayloadcrc", "resp_epayloadsize", "resp_erxoverflow", "resp_etxoverflow",
@@ -22,6 +22,11 @@ static void run_case(const Case &c) {
     Session A(c.serial, c.mem16, block, c.chunk, c.chunk);
     rp::Frame expected;
     int rc = 0;
+    auto arm_sink = [&]() {
+        if (c.snkmode == 1) A.snk.script.steps.assign(40 + c.payload.size(), 1);
+        else if (c.snkmode == 2) { static const int pat[] = {-EINTR, 2, 1, -EINTR, -EINTR, 3, 1, 5, -EINTR, 2}; for (size_t i = 0; i < 30 + c.payload.size() / 2; i++) { int st = pat[i % 10]; if (st < 0 && c.serial) st = 1; A.snk.script.steps.push_back(st); } }   // the SLIP encoder returns sink errors unchanged (C12), EINTR included: interruptions only on tcp
+    };
+    if (c.entry <= 3 || c.entry >= 16) arm_sink();
     if (c.entry <= 3) {
         A.p.session.sequence = c.seq;
         bool write = c.entry >= 2, w16 = c.entry & 1;
@@ -47,6 +52,7 @@ static void run_case(const Case &c) {
         int rr = regp_recv(&A.p, &mf);
         if (rr != 0 || mf.error.id != 0 || !mf.frame) { F(c, "harness:request-not-received", vp::fmt("reference-encoded request not accepted: rc=%d error=%d", rr, mf.error.id)); if (mf.frame) regp_free(&A.p, mf.frame); return; }
         A.take_output();
+        arm_sink();
         int code = c.entry - 4;
         vp::Block pl(c.payload.size() ? c.payload.size() : 2);
         if (!c.payload.empty()) memcpy(pl.p, c.payload.data(), c.payload.size());
@@ -101,7 +107,7 @@ static void run() {
     auto &a = vp::args();
     vp::CaseScope scope([] { return ser_case(g_cur); });
     vp::stats().rule = "enum/random: all 18 emit entry points (4 requests, ACK with/without payload, 11 error responses, 2 meta) x {serial, tcp} x {8, 16}-bit memory x request kinds, with addresses and "
-                       "sequence numbers at the edges, payloads rich in SLIP control octets, total lengths across the varint boundaries 127/128 and 16383/16384 and payloads across 2^16 and 2^17 octets; oracle = reference encoder octets + "
+                       "sequence numbers at the edges, payloads rich in SLIP control octets, sinks that take whole calls / one octet per call / short writes mixed with EINTR, total lengths across the varint boundaries 127/128 and 16383/16384 and payloads across 2^16 and 2^17 octets; oracle = reference encoder octets + "
                        "the library's own receiver reports the same fields; request sequence numbers increase by one modulo 2^16 (session of 70000 requests)";
     vp::stats().exhaustive = false;
     vp::Rng rng(a.seed * 15013 + a.shard);
@@ -117,7 +123,9 @@ static void run() {
             c.n = (uint32_t)rng.pick(std::vector<uint64_t>{0, 1, 2, 3, 7, 31});
             if (entry == 2 || entry == 3) c.payload = gen_payload(rng, (size_t)c.n * (entry == 3 ? 2 : 1));
             if (entry == 4) { if (rw) c.payload.clear(); else c.payload = gen_payload(rng, (size_t)c.n * (mem16 ? 2 : 1)); }   // ACK of a read carries the block, of a write nothing
+            c.snkmode = (int)((idx / 7) % 3);
             run_case(c);
+            if (c.snkmode) vp::cls("sink-with-short-writes");
             bool nt = !c.payload.empty() || (entry >= 5 && entry <= 15);
             if (nt) { vp::nontrivial(vp::fnv(ser_case(c))); vp::cls(entry >= 5 && entry <= 15 ? "error-response" : "payload-with-slip-control-octets"); } else vp::cls("plain");
             if (vp::want_sample()) vp::sample(ser_case(c));
@@ -141,6 +149,7 @@ static void run() {
                rng.chance(1, 4) ? rng.pick(addrs) : (uint32_t)rng.next(), (uint32_t)rng.below(rng.chance(1, 10) ? 200 : 12), (uint32_t)rng.next(), {}, rng.chance(1, 2)};
         if (c.entry == 2 || c.entry == 3) c.payload = gen_payload(rng, (size_t)c.n * (c.entry == 3 ? 2 : 1));
         if (c.entry == 4 && !c.req_write) c.payload = gen_payload(rng, (size_t)c.n * (c.mem16 ? 2 : 1));
+        c.snkmode = (int)rng.below(3);
         run_case(c);
         bool nt = !c.payload.empty() || (c.entry >= 5 && c.entry <= 15);
         if (nt) vp::nontrivial(vp::fnv(ser_case(c)));
@@ -169,7 +178,7 @@ static bool replay(const std::string &text) {
     auto w = vp::split(vp::lines(text).at(0));
     if (w.size() < 12 || w[0] != "emit") return false;
     Case c{atoi(w[1].c_str()), (bool)atoi(w[2].c_str()), (bool)atoi(w[3].c_str()), (bool)atoi(w[4].c_str()), (bool)atoi(w[5].c_str()), (uint16_t)strtoul(w[6].c_str(), 0, 10), (uint32_t)strtoul(w[7].c_str(), 0, 10),
-           (uint32_t)strtoul(w[8].c_str(), 0, 10), (uint32_t)strtoul(w[9].c_str(), 0, 10), w[11] == "-" ? Bytes() : vp::unhex(w[11]), (bool)atoi(w[10].c_str())};
+           (uint32_t)strtoul(w[8].c_str(), 0, 10), (uint32_t)strtoul(w[9].c_str(), 0, 10), w[11] == "-" ? Bytes() : vp::unhex(w[11]), (bool)atoi(w[10].c_str()), w.size() >= 13 ? atoi(w[12].c_str()) : 0};
     vp::CaseScope scope([] { return ser_case(g_cur); });
     run_case(c);
     return vp::stats().failures.empty();
